@@ -1,2 +1,243 @@
-(** C04 — placeholder until the proofs land. *)
-From Snel Require Import Model.Shard Model.Compaction.
+(** C04 — REPLAY returns a context's events in the order they were appended.
+    This file contains only the property theorems, each closed by [exact],
+    with [Print Assumptions] beneath.  Models: Model/Shard.v, Model/Compaction.v
+    (validated against the engine by trace validation); proofs:
+    Proofs/ShardC04Proofs.v (on top of the C03 invariant of Proofs/ShardC03Proofs.v).
+
+    Setting: [s := run (init c0) ls] for ANY label list [ls] without
+    [LCrash]/[LRestart] ([no_crash ls]): any interleaving of stores, WAL thread
+    steps, manual flushes and flush-worker stage labels, any number of queued
+    rotations, any capacity.  [applied ls] = the events of the [LStore] labels in
+    order, event ids unique ([NoDup (map ek (applied ls))], C18).
+    [ctx_events ls u c := of_ctx c (of_uid u (applied ls))] is the append order the
+    property demands of the typed REPLAY of type [u] for context [c].
+
+    The model's REPLAY is SOME interleaving ([Interleave]) of the memory flow
+    [replay_mem s u c] (active memtable, THEN the passive copies) and the segment
+    flow [replay_seg s u c] (rows of the scanned directories in [dirs] order),
+    de-duplicated by the response writer ([dedup_keys l := dedup_ev l []], first
+    occurrence of an event id kept).
+
+    Known classes (all confirmed on the engine as ORDER failures of REPLAY):
+    - MemtableAndSegmentFlowsInterleave: the fan-in may emit newer in-memory events
+      before older on-disk ones ([C04_fanin_order_refuted]);
+    - [ActiveBeforePassive] (part of the same engine finding: the memory flow reads
+      the active memtable before the passive buffers): a context with events in a
+      passive copy and in the active memtable ([C04_mem_flow_order_refuted]);
+    - CompactionScramblesContextOrder ([C04_compaction_order_refuted]). *)
+From Coq Require Import NArith List Bool Permutation Sorted.
+From Snel Require Import Model.Shard Model.Compaction Proofs.ShardC03Proofs Proofs.ShardC04Proofs.
+Import ListNotations.
+Open Scope N_scope.
+
+(** ** 1. Membership *)
+
+(** Whatever the schedule of the two flows, the de-duplicated REPLAY is a
+    permutation of exactly the context's events of the type. *)
+Theorem C04_membership : forall c0 ls u c r,
+  no_crash ls -> NoDup (map ek (applied ls)) ->
+  let s := run (init c0) ls in
+  Interleave (replay_mem s u c) (replay_seg s u c) r ->
+  Permutation (dedup_keys r) (ctx_events ls u c).
+Proof. exact membership_interleavings. Qed.
+Print Assumptions C04_membership.
+
+(** The rows of the two flows are exactly the context's events of the type. *)
+Theorem C04_membership_rows : forall c0 ls u c,
+  no_crash ls -> NoDup (map ek (applied ls)) ->
+  let s := run (init c0) ls in
+  forall e, In e (replay_mem s u c ++ replay_seg s u c) <-> In e (ctx_events ls u c).
+Proof. exact membership_rows. Qed.
+Print Assumptions C04_membership_rows.
+
+(** ** 2. Order inside the tiers *)
+
+(** The segment flow as a whole (flush keeps the append order inside a context:
+    [flush_order] is a stable sort by context, directories are created in rotation
+    order), every directory, the active memtable, every passive copy, and the
+    passive copies followed by the active memtable ([replay_mem_fifo]) are
+    subsequences of the append order. *)
+Theorem C04_order_within_tier : forall c0 ls u c,
+  no_crash ls -> NoDup (map ek (applied ls)) ->
+  let s := run (init c0) ls in
+  Subseq (replay_seg s u c) (ctx_events ls u c) /\
+  (forall d, In d (dirs s) -> Subseq (of_ctx c (of_uid u (srows d))) (ctx_events ls u c)) /\
+  Subseq (of_ctx c (of_uid u (mem s))) (ctx_events ls u c) /\
+  (forall p, In p (passives s) -> Subseq (of_ctx c (of_uid u (snd p))) (ctx_events ls u c)) /\
+  Subseq (replay_mem_fifo s u c) (ctx_events ls u c).
+Proof. exact order_within_tier. Qed.
+Print Assumptions C04_order_within_tier.
+
+(** Refuted: the memory flow itself lists the ACTIVE memtable BEFORE the passive
+    copies.  Capacity 4: STORE k1 (c1), manual FLUSH (job queued), STORE k2 (c1):
+    [replay_mem] = 2,1. *)
+Theorem C04_mem_flow_order_refuted :
+  exists c0 ls u c,
+    let s := run (init c0) ls in
+    no_crash ls /\ NoDup (map ek (applied ls)) /\ ActiveBeforePassive s u c = true /\
+    map ek (replay_mem s u c) = [2; 1] /\ map ek (ctx_events ls u c) = [1; 2] /\
+    ~ Subseq (replay_mem s u c) (ctx_events ls u c).
+Proof. exact mem_flow_order_refuted. Qed.
+Print Assumptions C04_mem_flow_order_refuted.
+
+(** Outside that class (the context has no event of the type in the active memtable,
+    or none in the passive copies) the memory flow is in append order. *)
+Theorem C04_mem_flow_order_outside_known : forall c0 ls u c,
+  no_crash ls -> NoDup (map ek (applied ls)) ->
+  let s := run (init c0) ls in
+  ActiveBeforePassive s u c = false ->
+  Subseq (replay_mem s u c) (ctx_events ls u c).
+Proof. exact mem_flow_order_outside_known. Qed.
+Print Assumptions C04_mem_flow_order_outside_known.
+
+(** ** 3. Sequential composition is the append order (the minimal repair) *)
+
+(** "Segments first, then the passive copies, then the active memtable",
+    de-duplicated, is EXACTLY the append order — at every reachable state, also while
+    a rotated memtable is both in its directory and in its passive copy. *)
+Theorem C04_seg_then_mem_append_order : forall c0 ls u c,
+  no_crash ls -> NoDup (map ek (applied ls)) ->
+  let s := run (init c0) ls in
+  dedup_keys (replay_seg s u c ++ replay_mem_fifo s u c) = ctx_events ls u c.
+Proof. exact seg_then_mem_append_order. Qed.
+Print Assumptions C04_seg_then_mem_append_order.
+
+(** With the model's memory flow (active memtable first) the composition fails in
+    the class [ActiveBeforePassive] ... *)
+Theorem C04_seg_then_mem_refuted :
+  exists c0 ls u c,
+    let s := run (init c0) ls in
+    no_crash ls /\ NoDup (map ek (applied ls)) /\ ActiveBeforePassive s u c = true /\
+    map ek (dedup_keys (replay_seg s u c ++ replay_mem s u c)) = [2; 1] /\
+    map ek (ctx_events ls u c) = [1; 2].
+Proof. exact seg_then_mem_refuted. Qed.
+Print Assumptions C04_seg_then_mem_refuted.
+
+(** ... and is exact outside it. *)
+Theorem C04_seg_then_mem_outside_known : forall c0 ls u c,
+  no_crash ls -> NoDup (map ek (applied ls)) ->
+  let s := run (init c0) ls in
+  ActiveBeforePassive s u c = false ->
+  dedup_keys (replay_seg s u c ++ replay_mem s u c) = ctx_events ls u c.
+Proof. exact seg_then_mem_outside_known. Qed.
+Print Assumptions C04_seg_then_mem_outside_known.
+
+(** ** 4. Known finding MemtableAndSegmentFlowsInterleave *)
+
+(** Capacity 4: STORE k1 (c1), k2 (c2), k3 (c1), manual FLUSH completed, STORE k4 (c1).
+    The interleaving that takes the memory flow first returns 4,1,3 (no passive copy
+    holds an event: this is not [ActiveBeforePassive]). *)
+Theorem C04_fanin_order_refuted :
+  exists c0 ls u c r,
+    let s := run (init c0) ls in
+    no_crash ls /\ NoDup (map ek (applied ls)) /\ jobs s = [] /\ ActiveBeforePassive s u c = false /\
+    Interleave (replay_mem s u c) (replay_seg s u c) r /\
+    map ek (dedup_keys r) = [4; 1; 3] /\ map ek (ctx_events ls u c) = [1; 3; 4] /\
+    ~ Subseq (dedup_keys r) (ctx_events ls u c).
+Proof. exact fanin_order_refuted. Qed.
+Print Assumptions C04_fanin_order_refuted.
+
+(** Outside both classes of the flush-only setting (the context has rows of the type
+    in only one of the two flows, and not both in the active memtable and in a passive
+    copy) EVERY schedule returns exactly the append order. *)
+Theorem C04_append_order_outside_known : forall c0 ls u c r,
+  no_crash ls -> NoDup (map ek (applied ls)) ->
+  let s := run (init c0) ls in
+  MemtableAndSegmentFlowsInterleave s u c = false -> ActiveBeforePassive s u c = false ->
+  Interleave (replay_mem s u c) (replay_seg s u c) r ->
+  dedup_keys r = ctx_events ls u c.
+Proof. exact replay_order_outside_known. Qed.
+Print Assumptions C04_append_order_outside_known.
+
+Theorem C04_append_order_example :
+  let s := run (init 4) ls_fanin in
+  MemtableAndSegmentFlowsInterleave s 0 2 = false /\ ActiveBeforePassive s 0 2 = false /\
+  map ek (replay_seg s 0 2) = [2] /\ replay_mem s 0 2 = [] /\
+  MemtableAndSegmentFlowsInterleave s 0 1 = true.
+Proof. exact replay_order_example. Qed.
+Print Assumptions C04_append_order_example.
+
+(** ** 5. Compaction *)
+
+(** The model's merge is stable.  For ANY relation [R] ("appended before"): if every
+    input holds the context's events [R]-sorted and every event of an earlier listed
+    input is [R]-before every event of a later one, the merged rows of the context are
+    [R]-sorted.  (The implementation's heap compares context ids only; its arbitrary
+    tie order between inputs is outside the model, the harness compares REPLAY results
+    as multisets after a compaction.) *)
+Theorem C04_stable_merge_keeps_order : forall (R : event -> event -> Prop) ds inputs u c,
+  (forall i, In i inputs -> StronglySorted R (of_ctx c (of_uid u (Compaction.rows_of ds i)))) ->
+  ForallOrdPairs (fun i j => forall x y,
+     In x (of_ctx c (of_uid u (Compaction.rows_of ds i))) ->
+     In y (of_ctx c (of_uid u (Compaction.rows_of ds j))) -> R x y) inputs ->
+  StronglySorted R (of_ctx c (merge_rows ds inputs u)).
+Proof. exact stable_merge_keeps_order. Qed.
+Print Assumptions C04_stable_merge_keeps_order.
+
+(** C04_order_if_stable: on every crash-free state, after a batch the policy can
+    produce ([batch_ok]: its inputs are then in label order), the output directory
+    holds the context's events of each merged type in append order. *)
+Theorem C04_order_if_stable : forall c0 k ls b u c,
+  no_crash ls -> NoDup (map ek (applied ls)) ->
+  let s := run (init c0) ls in
+  let s1 := crun s (batch_steps s b) in
+  batch_ok (index s) k b = true -> NoDup (b_uids b) -> In u (b_uids b) ->
+  Subseq (of_ctx c (of_uid u (Compaction.rows_of (dirs s1) (b_out b)))) (ctx_events ls u c).
+Proof. exact compaction_output_in_order_planned. Qed.
+Print Assumptions C04_order_if_stable.
+
+(** Known finding CompactionScramblesContextOrder, on the model: level-0 segments
+    0,1,2 hold k1,k2,k3 of one context, the batch {0,1} -> 10000 (fan-in 2) is merged
+    and reclaimed; the output directory is listed after the newer directory 2 and
+    the segment flow is 3,1,2 (the memory flow is empty: every schedule returns it). *)
+Theorem C04_compaction_order_refuted :
+  exists c0 k ls b u c,
+    let s := run (init c0) ls in
+    let s1 := crun s (batch_steps s b ++ [CReclaim (drained (index s) b)]) in
+    no_crash ls /\ NoDup (map ek (applied ls)) /\ jobs s = [] /\
+    batch_ok (index s) k b = true /\ b_inputs b = [0; 1] /\ In u (b_uids b) /\
+    map sid (dirs s1) = [2; 10000] /\ live s1 = [2; 10000] /\
+    replay_mem s1 u c = [] /\
+    map ek (replay_seg s1 u c) = [3; 1; 2] /\ map ek (ctx_events ls u c) = [1; 2; 3] /\
+    ~ Subseq (replay_seg s1 u c) (ctx_events ls u c).
+Proof. exact compaction_order_refuted. Qed.
+Print Assumptions C04_compaction_order_refuted.
+
+(** ** 6. Non-vacuity *)
+
+(** Capacity 2: context 1 spans the complete directories 0 and 1, directory 2 (in
+    flight: written and published, passive copy not yet released), the passive copy
+    of segment 3 (queued) and the active memtable. *)
+Theorem C04_tiers_example :
+  let s := run (init 2) ls_tiers in
+  no_crash ls_tiers /\ NoDup (map ek (applied ls_tiers)) /\
+  map sid (dirs s) = [0; 1; 2] /\ map jstage (jobs s) = [StPublished; StQueued] /\
+  map (fun p => (fst p, map ek (snd p))) (passives s) = [(0, []); (1, []); (2, [5]); (3, [6])] /\
+  map ek (mem s) = [7] /\
+  map ek (replay_seg s 0 1) = [1; 2; 3; 5] /\
+  map ek (replay_mem s 0 1) = [7; 5; 6] /\ map ek (replay_mem_fifo s 0 1) = [5; 6; 7] /\
+  ActiveBeforePassive s 0 1 = true /\
+  map ek (dedup_keys (replay_seg s 0 1 ++ replay_mem_fifo s 0 1)) = [1; 2; 3; 5; 6; 7] /\
+  map ek (ctx_events ls_tiers 0 1) = [1; 2; 3; 5; 6; 7].
+Proof. exact tiers_example. Qed.
+Print Assumptions C04_tiers_example.
+
+(** A context in a directory and in the active memtable, outside [ActiveBeforePassive]. *)
+Theorem C04_seg_then_mem_example :
+  let s := run (init 4) ls_fanin in
+  no_crash ls_fanin /\ NoDup (map ek (applied ls_fanin)) /\ ActiveBeforePassive s 0 1 = false /\
+  map ek (replay_seg s 0 1) = [1; 3] /\ map ek (replay_mem s 0 1) = [4] /\
+  map ek (dedup_keys (replay_seg s 0 1 ++ replay_mem s 0 1)) = [1; 3; 4].
+Proof. exact seg_then_mem_example. Qed.
+Print Assumptions C04_seg_then_mem_example.
+
+(** The hypotheses of [C04_order_if_stable] hold for the batch of
+    [C04_compaction_order_refuted]; its output directory holds 1,2. *)
+Theorem C04_compaction_example :
+  let s := run (init 1) ls_cp in
+  let s1 := crun s (batch_steps s b_cp) in
+  no_crash ls_cp /\ NoDup (map ek (applied ls_cp)) /\ batch_ok (index s) 2 b_cp = true /\
+  StronglySorted N.lt (b_inputs b_cp) /\ NoDup (b_uids b_cp) /\ In 0 (b_uids b_cp) /\
+  map ek (of_ctx 1 (of_uid 0 (Compaction.rows_of (dirs s1) (b_out b_cp)))) = [1; 2].
+Proof. exact compaction_example. Qed.
+Print Assumptions C04_compaction_example.
